@@ -164,6 +164,13 @@ where
         pm.coeffs().push(from(5));
         ensure!(pm.size() == a.len() + 1 && pm[a.len()].ieq(&from(5)) && veq(&coeffs_of(&pa), a), "coeffs() does not expose the coefficient vector of this polynomial only");
     }
+    // ONE object on both sides of a borrowed operator (a "squaring" or "doubling" fast path keyed on pointer equality)
+    {
+        same(&(&pa * &pa), &m_mul(a, a), Some(if a.is_empty() { 0 } else { 2 * a.len() - 1 }), "&a * &a (one object)")?;
+        same(&(&pa + &pa), &m_add(a, a), Some(a.len()), "&a + &a (one object)")?;
+        same(&(&pa - &pa), &m_sub(a, a), Some(a.len()), "&a - &a (one object)")?;
+        ensure!(veq(&coeffs_of(&pa), a), "operand modified by an operator applied to itself");
+    }
     // operands whose coefficient vectors hold SPARE CAPACITY (built by pushes into a larger allocation; three coefficients pushed
     // and popped again through coeffs()): the consuming operators may reuse an operand's buffer, the result must not depend on it
     {
